@@ -142,7 +142,7 @@ def history_failure_case(inp):
 
 
 def rows_repr(rows):
-    return [None if r is None else {k: [repr(x) for x in v] for k, v in r.items()} for r in rows]
+    return [None if r is None else {k: (None if v is None else [repr(x) for x in v]) for k, v in r.items()} for r in rows]
 
 
 def input_repr(inp):
@@ -213,6 +213,7 @@ def refused_means_unchanged(obj, fn):
     """run an in-place operation on obj; if it RAISES, the object must be exactly as before - otherwise the (changed) object is
     returned as if the operation had succeeded, so that the verdict sees what was stored"""
     before = repr(obj.chunked_array.to_pylist()), str(obj.chunked_array.type)
+    attempt(lambda: summary_views(obj))            # reads that an implementation may cache: taken BEFORE the write
     try:
         fn()
     except Exception:
@@ -220,7 +221,21 @@ def refused_means_unchanged(obj, fn):
         if after != before:
             return obj
         raise
+    # ... and compared AFTER it with the same reads on a fresh array over the same storage
+    fresh = attempt(lambda: summary_views(type(obj)(obj.chunked_array, validate=False)))
+    if fresh[0] == "ok":
+        mine = attempt(lambda: summary_views(obj))
+        assert mine[0] == "ok" and mine[1] == fresh[1], \
+            f"after an in-place write the object answers {mine[1] if mine[0] == 'ok' else mine} where a fresh array over the same storage answers {fresh[1]}"
     return obj
+
+
+def summary_views(a):
+    """the summary quantities of an array (what an implementation might memoize)"""
+    return {"len": len(a), "isna": [bool(x) for x in a.isna()], "hasna": bool(a._hasna),
+            "list_lengths": [int(x) for x in a.list_lengths], "flat_length": int(a.flat_length),
+            "list_offsets": a.list_offsets.to_pylist(), "list_index": [int(x) for x in a.get_list_index()],
+            "field_names": list(a.field_names), "dtype": str(a.dtype)}
 
 
 def plain_rows(inp):
@@ -321,6 +336,9 @@ def op_getitem_idx(rng, inp):
         ix[rng.randrange(len(ix))] = rng.choice([n, -n - 1, n + 3])
     if n == 0 and not oob:
         ix = []
+    if n and not oob and rng.random() < 0.15:
+        # constant keys: every position the same one (all zero, all the last, all -1)
+        ix = [rng.choice([0, 0, n - 1, -1])] * rng.randint(1, 3)
     res = attempt(lambda: arr[np.array(ix, dtype=np.int64)])
     rows = plain_rows(inp)
     try:
@@ -662,8 +680,8 @@ def op_set_lists(rng, inp, via="array", malformed=False):
     lists = [values_of_type(rng, ty, k) for k in lens]
     if malformed and lists:
         r = rng.random()
-        if r < 0.5:
-            j = rng.randrange(len(lists))
+        if r < 0.65:
+            j = rng.randrange(len(lists)) if rng.random() < 0.5 else 0   # often in the FIRST row (a first chunk when there are several)
             lists[j] = lists[j] + values_of_type(rng, ty, 1, 0)       # ragged against the other fields
         else:
             lists = lists[:-1]                                          # wrong number of rows
@@ -742,6 +760,8 @@ def op_select_fields(rng, inp, via="array", malformed=False):
     pop = rng.random() < 0.5
     k = rng.randint(1, len(names))
     fields = rng.sample(names, k)
+    if not malformed and not pop and rng.random() < 0.25:
+        fields = list(names)            # every field, in the column's own order: still a NEW column
     if malformed:
         r = rng.random()
         if r < 0.4:
@@ -773,4 +793,4 @@ def op_select_fields(rng, inp, via="array", malformed=False):
         return out.array
     res = attempt(run2)
     return col_case(inp, "view_fields" if via == "array" else "nest_getitem_list", f"m_view_fields P {cq_strs(fields)}",
-                    f"spec_col_view_fields L {cq_strs(fields)}", res, {"fields": fields})
+                    f"spec_col_view_fields L {cq_strs(fields)}", res, {"fields": fields}, sources=[arr])
